@@ -68,6 +68,10 @@ CHECKS = {
     text="spec/YMultiDoc.tla models the three multi-document drivers of yaml-merge (condense_all, merge_across, matrix_merge) and main()'s per-file feeding as a step function with one event per pairwise merge in loop order; documents are modelled as provenance sequences, as marker content under the C05 policies, and as an object graph (by-reference vs copied right-hand documents). TLC checks the output-count/order theorems completely for stream lengths 1..4 x 1..4 x 3 modes and that the pinned by-reference matrix design violates RhsPristine/Terminates. Real runs (library route and yaml_merge.main() in-process, files and stdin) are recorded by wrapping Merger.merge_with and validated by TLC (Trace_YMultiDoc folds the same step function); outputs are judged on number, order and provenance.",
     note="Trusted: TLC; the marker-key reading of provenance; the recorder wrappers.",
     technique="TLA+ driver state machine checked by TLC + C->S trace validation of recorded pairwise merges", ref="4/C18"),
+ "C06": dict(
+    text="spec/YDiff.tla mirrors differ.py operator by operator (Diff over node tables, both synchronisers, the five AoH and two array modes) and states the predicates of the statement (Truthful, Covers, Accounted, NoChange, DataEq / DataEqUnordered); TLC (MC_Diff) enumerates pairs (identical; derived from the left document by one or two insert/delete/replace/retype/swap edits; unrelated; curated AoH) x all modes and checks the theorems on the repaired differ (positional => Truthful and Covers; every mode => NoChange <=> data-equal and Accounted; reflexivity); the pinned mirror must violate them. Every emitted pair is run through the real Differ and the SAME predicates are evaluated on the real report against the real documents; seeded random larger pairs are recorded and validated by TLC (Trace_Diff).",
+    note="Trusted: TLC; the predicates as the reading of the statement; absdoc. Synchronised modes have no path clause in the statement (a wrong index there is drift only); key/deep over lists with non-Hash members are informational. Quick replays every third pair of the large configuration (all pairs are enumerated and judged by TLC).",
+    technique="TLA+ mirrored differ + statement predicates checked by TLC; S->C replay evaluating the same predicates on real reports; C->S Trace_Diff", ref="4/C06"),
 }
 NA_REASON = "check not built yet in this round (specification family under construction; see DESIGN.md section 9)"
 def main():
